@@ -856,6 +856,7 @@ class Rewriter:
         b = self.sub('R12:thread-heap', r'\bself\.vec\.clone_from\(', 'self.vec.clone_from(hs, ds, ', b)
         b = self.sub('R25:forget', r'\bmem::forget\(self\)', 'vec_forget(self.vec)', b)
         b = self.sub('R25:ok-pattern', r'\bOk\(\.\.\) =>', 'Ok(_) =>', b)
+        b = self.sub('R12:thread-heap', r'\bself\.vec\.capacity\(\)', 'self.vec.capacity(hs)', b)
         for name in ['push_str', 'push', 'reserve']:
             b = self.map_calls(b, r'\bself\.%s' % name, lambda m_, a, name=name: None if (a and a[0] == 'hs') else 'self.%s(%s)' % (name, ', '.join(['hs'] + a)), 'R12:thread-heap')
         # model types / constructors
